@@ -30,7 +30,7 @@ FEATURES = [
     "async",
     "control", "initialisers", "anon", "classes", "global_code",
     "long", "oneline", "throws", "return_types", "qualified", "decorators", "docstrings", "multiline_calls",
-    "let_prefix", "rich_params", "rich_types",
+    "let_prefix", "rich_params", "rich_types", "annotations",
 ]
 DEFAULT_ON = set(FEATURES)
 
@@ -451,6 +451,25 @@ class Gen:
                 name.text = f.name
             head = [name]
         f.first = head[0]
+        if self.on("annotations", 0.15) and (lang not in ("JavaScript",)) and (not self.js or in_class):
+            ann = {"Java": ["@Override", "@SuppressWarnings ( \"unchecked\" )", "@Test ( timeout = 100 )", "@Deprecated"],
+                   "C#": ["[ Obsolete ]", "[ TestCase ( 1 , 2 ) ]", "[ MethodImpl ( MethodImplOptions.NoInlining ) ]"],
+                   "TypeScript": ["@HostListener ( 'click' )", "@Input ( )", "@log"],
+                   "C++": ["[[nodiscard]]", "[[deprecated ( \"old\" )]]"],
+                   "C": ["__attribute__ ( ( unused ) )", "__attribute__ ( ( format ( printf , 1 , 2 ) ) )"]}[lang]
+            a = self.words(r.choice(ann), owner)
+            if lang == "C#" and r.random() < 0.3:
+                # an attribute section broken across lines is ONE Name.Attribute token for Pygments: its line is where it begins
+                pad = " " * (indent + 4)
+                a = [self.T(r.choice([f"[TestCase(1,\n{pad}2)]", f"[\n{pad}Obsolete\n{pad}]", f"[Route(\n{pad}\"x\")]"]), owner, kind="multiline")]
+                self.emit(a, indent)
+                a = []
+            if not a:
+                pass
+            elif r.random() < 0.6 or lang in ("C++",):
+                self.emit(a, indent)  # on its own line, above the header
+            else:
+                prefix = a + prefix   # on the header line, before the modifiers
         groups = self.params(f)
         lp = self.T("(", o, kind="punct", glue=r.random() < 0.85)
         rp = self.T(")", o, kind="punct", glue=True)
@@ -893,6 +912,8 @@ class Gen:
         o = f.fid
         if self.on("decorators", 0.12):
             self.emit([self.T("@" + r.choice(["cache", "staticmethod", "wraps"]), owner)], indent)
+        if self.on("annotations", 0.1):
+            self.emit(self.words(r.choice(["@app.route ( \"/items\" )", "@retry ( times = 3 )", "@pytest.mark.parametrize ( \"a\" , [ 1 , ( 2 ) ] )"]), owner), indent)
         head = []
         if self.on("async", 0.15):
             head.append(self.T("async", o, kind="kw"))
